@@ -482,6 +482,120 @@ def gen_spoly_args(rng, allow_zero_top=True):
     return R, C, rmin, rmax, c, r0, s
 
 
+BS_KINDS = ['tck', 'bspline', 'splrep', 'interp', 'univariate']
+BS_PLACES = ['outside', 'knot', 'inside', 'inside-far']
+
+
+def gen_bspline_args(rng, j, kind=None, place=None):
+    """Splines given as tck / BSpline (arbitrary knot vectors) or built from data (splrep, make_interp_spline,
+    UnivariateSpline); breakpoints negative, zero and positive; 0 a breakpoint / strictly inside an interval / outside
+    all; degree 1..5."""
+    kind = kind or BS_KINDS[j % 5]
+    place = place or BS_PLACES[(j // 5) % 4]
+    deg = int(rng.integers(1, 6))
+    nb = int(rng.integers(4, 9))                       # number of distinct breakpoints / data points
+    if kind in ('tck', 'bspline'):
+        brk = np.cumsum(rng.uniform(0.4, 1.5, nb))
+    else:
+        nb = max(nb, deg + 3)
+        brk = np.cumsum(rng.uniform(0.4, 1.5, nb))
+    j0 = int(rng.integers(1, max(2, nb - 2)))          # index of the breakpoint placed at / before 0
+    if place == 'outside':
+        brk = brk - brk[0] + float(rng.choice([0.0, 0.3, 1.1]))
+    elif place == 'knot':
+        brk = brk - brk[j0]
+    elif place == 'inside':
+        brk = brk - brk[j0] - float(rng.uniform(0.1, 0.9)) * (brk[j0 + 1] - brk[j0])
+    else:
+        brk = brk - brk[min(j0 + 1, nb - 2)] - 0.5 * (brk[min(j0 + 2, nb - 1)] - brk[min(j0 + 1, nb - 2)])
+    if brk[-1] <= 0.5:
+        brk = brk + (0.7 - brk[-1]) + 1.0
+    if kind in ('tck', 'bspline'):
+        t = np.concatenate([[brk[0]] * deg, brk, [brk[-1]] * deg])
+        coef = rng.normal(size=len(t) - deg - 1)
+        xk, yk = t, coef
+    else:
+        xk, yk = brk, rng.normal(size=len(brk))
+    r = np.arange(0, brk[-1] + 1.5, 0.5)
+    if rng.random() < 0.5:
+        r = np.sort(np.concatenate([r, rng.uniform(0, brk[-1] + 1, 4)]))
+    r = r[np.all(np.abs(r[:, None] - brk[None, :]) > 1e-3, axis=1) | np.isin(r, brk)]
+    return kind, xk, yk, deg, r
+
+
+PLACEMENTS = ['inside', 'straddle-edge', 'beyond', 'below-first', 'zero-width', 'touch-edge']
+
+
+def place_limits(rng, g, where):
+    """(r_min, r_max) of a piece relative to the sampled radii g (sorted, non-negative)"""
+    lo, hi = float(np.min(g)), float(np.max(g))
+    for _ in range(200):
+        if where == 'inside':
+            a, b = sorted(float(v) for v in rng.uniform(lo, hi, 2))
+        elif where == 'straddle-edge':
+            a, b = float(rng.uniform(lo, hi)), hi + float(rng.uniform(0.1, 2))
+        elif where == 'beyond':
+            a = hi + float(rng.uniform(0.05, 2)); b = a + float(rng.uniform(0.2, 2))
+        elif where == 'below-first':
+            if lo > 0.2:
+                a, b = sorted(float(v) for v in rng.uniform(0, lo * 0.95, 2))
+            else:
+                a, b = -float(rng.uniform(1, 2)), -float(rng.uniform(0.1, 0.9))      # entirely at negative r
+        elif where == 'zero-width':
+            a = float(rng.uniform(lo, hi + 1)); b = a
+        else:                                   # r_min exactly the largest sampled radius
+            a, b = hi, hi + float(rng.uniform(0.2, 2))
+        ok = all(np.all((np.abs(g - v) > 1e-3 * max(1.0, abs(v))) | (g == v)) for v in (a, b))
+        if ok and (b - a > 0.05 or where == 'zero-width'):
+            return a, b
+    return hi + 1.0, hi + 2.0
+
+
+def placement_sweep(rng, run):
+    """Every class x every placement of a piece relative to the grid (inside, straddling the edge, entirely beyond,
+    entirely below the first radius / at negative r, zero width, starting exactly at the last radius): abel vs the
+    line-of-sight integral."""
+    from abel.tools.polynomial import rcos
+    for where in PLACEMENTS:
+        # 1-D
+        g = gen_grid(rng, int(rng.integers(4, 9)))
+        if rng.random() < 0.5:
+            g = g + float(rng.uniform(0.3, 1.0))            # grid not starting at 0
+        _, _, _, c, r0, s, red = gen_poly_args(rng, kmax=5)
+        if not np.any(c):
+            c = c + 1.0
+        a, b = place_limits(rng, g, where)
+        run('polynomial', (g, a, b, c, r0, s, red), lambda A, d: 'C10:polynomial:' + d.split('[')[0], ('place', 'P', where))
+        a2, b2 = place_limits(rng, g, 'inside')
+        _, _, _, c2, r02, s2, red2 = gen_poly_args(rng, kmax=4)
+        order = [(a, b, c, r0, s, red), (a2, b2, c2, r02, s2, red2)]
+        if rng.random() < 0.5:
+            order.reverse()
+        run('piecewise', (g, order), lambda A, d: 'C10:piecewise:' + d.split('[')[0], ('place', 'PW', where))
+        # 2-D
+        if rng.random() < 0.6:
+            shape = (int(rng.integers(3, 6)), int(rng.integers(3, 6)))
+            R, C = rcos(shape=shape, origin=(float(rng.uniform(0, shape[0] - 1)), float(rng.uniform(0, shape[1] - 1))))
+        else:
+            R = gen_grid(rng, int(rng.integers(3, 8))) + float(rng.choice([0.0, 0.4]))
+            C = rng.uniform(-1, 1, size=R.shape)
+        flat = np.sort(np.ravel(R))
+        _, _, _, _, cm, r0m, sm = gen_spoly_args(rng)
+        if not np.any(cm):
+            cm[0, 0] = 1.0
+        a, b = place_limits(rng, flat, where)
+        run('spolynomial', (R, C, a, b, cm, r0m, sm), spoly_key, ('place', 'SP', where))
+        a2, b2 = place_limits(rng, flat, 'inside')
+        _, _, _, _, cm2, r0m2, sm2 = gen_spoly_args(rng)
+        order = [(a, b, cm, r0m, sm), (a2, b2, cm2, r0m2, sm2)]
+        k = int(rng.integers(0, 3))
+        if k == 1:
+            order.reverse()
+        elif k == 2:
+            order = [order[0]]                                  # the placed piece alone
+        run('piecewise_s', (R, C, order), lambda A, d: 'C10:piecewise_s:' + d.split('[')[0], ('place', 'PWS', where))
+
+
 def search(ctx, rng, budget):
     hits = []
     n_eval = 0
@@ -497,6 +611,14 @@ def search(ctx, rng, budget):
 
     # directed case: the tolerance of the recorded finding C10:approx-gaussian-exceeds-tol (refuted instance theorem)
     run('approx_gaussian', (0.0187,), ag_key, ('ag', 'recorded'))
+    # every class x every placement of a piece relative to the sampled radii (twice in the quick tier, 8 x in thorough)
+    for _ in range(max(2, budget // 40)):
+        placement_sweep(rng, run)
+        # every kind of spline input x every position of 0 relative to the breakpoints
+        for kind in BS_KINDS:
+            for place in BS_PLACES:
+                run('bspline', gen_bspline_args(rng, 0, kind, place),
+                    lambda A, d: 'C10:bspline:%s:%s' % (A[0], re.sub(r'\[.*', '', d)[:40]), ('bs', kind, place))
     for it in range(budget):
         # Polynomial vs quadrature (larger grids and degrees than the correspondence)
         a = gen_poly_args(rng, nmax=24, kmax=8)
@@ -565,16 +687,8 @@ def search(ctx, rng, budget):
             return 'C10:angular:%s:%s' % (A[0], d.split('[')[0])
         run('angular', (op, a, b, xs), akey, ('ang', op, len(a) > len(b), len(a) == len(b)))
         if it % 5 == 0:
-            kind = ['splrep', 'interp', 'univariate'][it // 5 % 3]
-            nk = int(rng.integers(7, 14)); deg = int(rng.integers(1, 6))
-            xk = np.cumsum(rng.uniform(0.3, 1.2, nk)) - (0.3 if rng.random() < 0.5 else -0.4)
-            if xk[0] < 0:
-                xk = xk - xk[0]
-            yk = rng.normal(size=nk)
-            r = np.arange(0, xk[-1] + 1.5, 0.5)
-            r = r[np.all(np.abs(r[:, None] - xk[None, :]) > 1e-3, axis=1) | np.isin(r, xk)]
-            run('bspline', (kind, xk, yk, deg, r), lambda A, d: 'C10:bspline:%s:%s' % (A[0], d.split('[')[0]),
-                ('bs', kind, deg))
+            run('bspline', gen_bspline_args(rng, it // 5), lambda A, d: 'C10:bspline:%s:%s' % (A[0], re.sub(r'\[.*', '', d)[:40]),
+                ('bs', it // 5 % 5, it // 25 % 4))
         if it % 4 == 0:
             tol = float(10 ** rng.uniform(-5, np.log10(5e-2)))
             run('approx_gaussian', (tol,), ag_key, ('ag', int(np.log10(tol) * 2)))
